@@ -1,4 +1,4 @@
-PENDING.update({k: "check not built yet at this commit (planned, see DESIGN.md section 5)" for k in ["C18"]})
+
 check("C01", "exploration",
   "Seeded search: every run executes one (generated variant, operation, variables, resolver-outcome plan, release order) of servers generated at check time from /repo's templates, with each resolver/directive call parked and released by the scheduler, and compares data (key order kept) and the error multiset with an independent reference executor. Sampling, not proof; right level because the property is a refinement claim over an unbounded input space.",
   "Probe schemas instead of random schemas; reference executor + plan are the trusted model (parameters P1/P2 documented in DESIGN 3.5); gqlgen-authored messages matched by path only.",
@@ -47,3 +47,7 @@ check("C07", "exploration",
   "Seeded histories of requests over six HTTP transports against one long-lived server (2-entry LRU document cache, APQ, introspection), sequential or overlapped at resolver calls, with optional members present in one request and absent in the next; every response (status, content type, body) must equal the response of a fresh server to that request alone; hash-only APQ requests must answer NotFound or their registered text.",
   "Fresh-server oracle computed in the same process with the POST pool emptied by GC; GOMAXPROCS=1 makes pool reuse deterministic; websocket cross-operation leakage not covered.",
   "deterministic simulation: request-history search with a fresh-server differential oracle", "5.7")
+check("C18", "exploration",
+  "The generator is run as a child process built from a scratch copy in which every range over a map in the generator packages iterates in a seeded order; each run generates one of four probe projects under a seeded order, start directory, prior tree state and GOMAXPROCS, and every file must hash to the canonical generation (which must also agree between processes); re-generation over existing output must change nothing.",
+  "Probe projects instead of random schemas; iteration order inside dependencies is not seeded; ~4 s per generation bounds the number of runs.",
+  "deterministic simulation: seeded map-iteration order via source instrumentation + byte-identity oracle", "5.18")
